@@ -16,13 +16,15 @@ EXPLANATION = ("Bounded symbolic execution of the real metric code: (voc) match 
                "[0,1] and non-increasing in the match threshold on every sort order; (pck) symbolic distances (possibly missing) and two symbolic pixel thresholds -> "
                "PCK in [0,1] and non-decreasing in the threshold; (vis) visibility confusion counts over symbolic missing patterns -> ratios in [0,1]; (dist) average "
                "distance >= 0; (fixed point) predictions identical to symbolic ground truth through the real matching -> mOKS 1, distances 0, AP = AR = 1 up to "
-               "np.spacing, PCK = visible fraction; (deletion) recall after deleting a prediction vs before, through the real greedy matching with a symbolic OKS matrix.")
+               "np.spacing, PCK = visible fraction; (deletion) recall after deleting a prediction vs before, through the real greedy matching with a symbolic OKS matrix; "
+               "(float) the scalar arithmetic of the recall / precision curve is lifted from the current source of voc_metrics by an AST pass (symx/fpast.py) and decided in "
+               "IEEE binary64 (z3 FloatingPoint) for all counts up to 2^16 (2^20): full recall is exactly 1.0, both curves in [0,1], recall monotone in tp, all-TP precision 1 up to 2^-50.")
 ASSUMPTIONS = ["exact real arithmetic + IEEE special values; one missing flag per point; every instance has at least one visible node",
                "threshold grids are passed as the functions' own parameters (3 match thresholds, 5 recall thresholds): the defaults 10/101/10 are outside the claim",
                "deletion obligation: compute_oks inside match_instances is replaced by a symbolic OKS matrix in [0,1] (any geometry); replay realises it geometrically when possible, else pins it",
                "Evaluator.__init__ / find_frame_pairs (sleap_io files) bypassed; frames duck-typed"]
 STUBS = ["evaluation.np -> numpy proxy", "Evaluator built with __new__ and its positive_pairs / false_negatives / dists_dict attributes set by the harness or by the real match_frame_pairs/compute_dists", "loguru -> no-op"]
-OUTSIDE = ["more than 3 matched pairs / 2 frames x 2 animals x 2 nodes", "percentiles of distance_metrics beyond 'avg' (np.percentile interpolation on symbolic order statistics is modelled only for <= 4 values)", "float rounding"]
+OUTSIDE = ["more than 3 matched pairs / 2 frames x 2 animals x 2 nodes", "percentiles of distance_metrics beyond 'avg' (np.percentile interpolation on symbolic order statistics is modelled only for <= 4 values)", "float rounding other than in the recall/precision curve arithmetic (F1-F5)", "instance counts above 2^16 (quick) / 2^20 (thorough) in F1-F5; above 64 / 256 in F3"]
 REQUIRED_WITNESSES = ["voc-path-with-true-and-false-positive"]
 KNOWN = "recall-increases-after-deleting-a-prediction"
 
@@ -44,11 +46,12 @@ def configs(tier, seed):
     for (frames, animals, nodes) in ([(1, 1, 2), (1, 2, 1), (2, 1, 1)] + ([(1, 2, 2), (2, 2, 1)] if tier == "thorough" else [])):
         out.append(dict(kind="fixed", frames=frames, animals=animals, nodes=nodes))
     out.append(dict(kind="deletion", n_gt=2, n_pr=2))
+    out.append(dict(kind="float", N=2 ** 16 if tier == "quick" else 2 ** 20, N_mono=64 if tier == "quick" else 256))
     return out
 
 
 def run_config(cfg):
-    return {"voc": _run_voc, "pck": _run_pck, "vis": _run_vis, "fixed": _run_fixed, "deletion": _run_deletion}[cfg["kind"]](cfg)
+    return {"voc": _run_voc, "pck": _run_pck, "vis": _run_vis, "fixed": _run_fixed, "deletion": _run_deletion, "float": _run_float}[cfg["kind"]](cfg)
 
 
 def _install():
@@ -406,12 +409,113 @@ def _run_deletion(cfg):
 
 
 # ------------------------------------------------------------------ replay (real numpy)
+# ------------------------------------------------------------------ binary64 slice of the recall / precision curve
+def _float_slices():
+    import sleap_nn.evaluation as ev
+    from symx.fpast import FloatSlice, F64
+    tp, tp2, fp_, n = [z3.FP(x, F64) for x in ("tp", "tp2", "fp", "npig")]
+    sl = FloatSlice(ev.Evaluator.voc_metrics, {"tp": tp, "fp": fp_, "npig": n}, ["rc", "pr"])
+    sl2 = FloatSlice(ev.Evaluator.voc_metrics, {"tp": tp2, "fp": fp_, "npig": n}, ["rc"])
+    return (tp, tp2, fp_, n), sl, sl2
+
+
+def _run_float(cfg):
+    """'up to rounding': the scalar arithmetic of the recall / precision curve (`rc`, `pr` in voc_metrics, whatever the current source
+    computes them from tp, fp, npig) is re-interpreted in IEEE binary64 and z3 decides, for every count up to N, that full recall is
+    EXACTLY 1.0 (so the recall threshold 1.0 is reached and AP of perfect predictions is 1), that both curves stay in [0,1], that recall
+    is monotone in tp and that an all-true-positive prefix has precision 1 up to 2**-50."""
+    import time
+    from symx.harness import Report
+    from symx.fpast import fpval, is_integral, fp_model_value
+    from symx.xf import EngineGap
+    rep = Report(cfg)
+    rep.paths = rep.nontrivial_paths = 1
+    N, Nm = cfg["N"], cfg["N_mono"]
+    names = {"F1": "F1-full-recall-is-exactly-1.0-in-binary64", "F2": "F2-recall-curve-in-0-1-in-binary64", "F3": "F3-recall-curve-monotone-in-tp-in-binary64",
+             "F4": "F4-precision-curve-in-0-1-in-binary64", "F5": "F5-all-true-positive-precision-is-1-up-to-2^-50"}
+    try:
+        (tp, tp2, fp_, n), sl, sl2 = _float_slices()
+    except EngineGap as e:
+        for k in names.values():
+            rep.record(k, "unknown")
+        rep.inconclusive_item("float", f"slice not extractable from the current source: {e}")
+        return rep.finish()
+    rc, pr, rc2 = sl.exprs["rc"], sl.exprs["pr"], sl2.exprs["rc"]
+    one, zero = fpval(1.0), fpval(0.0)
+
+    def base(M):
+        return [is_integral(n, 1, M), is_integral(tp, 0, M), z3.fpLEQ(tp, n), is_integral(fp_, 0, M)]
+    obl = {"F1": base(N) + [tp == n, z3.Not(z3.fpEQ(rc, one))],
+           "F2": base(N) + [z3.Not(z3.And(z3.fpGEQ(rc, zero), z3.fpLEQ(rc, one)))],
+           "F3": base(Nm) + [is_integral(tp2, 0, Nm), z3.fpLEQ(tp, tp2), z3.fpLEQ(tp2, n), z3.fpGT(rc, rc2)],
+           "F4": base(N) + [z3.Not(z3.And(z3.fpGEQ(pr, zero), z3.fpLEQ(pr, one)))],
+           "F5": base(N) + [fp_ == zero, z3.fpGEQ(tp, one), z3.fpLT(pr, fpval(1 - 2.0 ** -50))]}
+    nq, tot = 0, 0.0
+    for k, cons in obl.items():
+        s = z3.Solver()
+        s.set("timeout", 240000)
+        s.add(*cons)
+        t0 = time.time()
+        r = str(s.check())
+        dt = time.time() - t0
+        nq += 1
+        tot += dt
+        rep.record(names[k], r, dt)
+        if r == "sat":
+            mo = s.model()
+            vals = {v: fp_model_value(mo, x) for v, x in (("tp", tp), ("tp2", tp2), ("fp", fp_), ("npig", n))}
+            rep.violation(names[k], f"float:{k}", f"binary64 evaluation of the curve arithmetic breaks {names[k]} at {vals}", {"which": k, "values": vals, "slice": sl.source()})
+        elif r != "unsat":
+            rep.inconclusive_item(names[k], "solver returned unknown / timeout")
+    rep.sample({"slice": sl.source(), "N": N, "N_mono": Nm})
+    rep.witness("voc-path-with-true-and-false-positive", True)
+    return rep.finish(stats={"queries": nq, "solver_s": tot})
+
+
+def _replay_float(inputs):
+    import numpy as np
+    import sleap_nn.evaluation as ev
+    k, v = inputs["which"], inputs["values"]
+    _, sl, _ = _float_slices()
+    import math
+
+    def iv(x, default):  # variables an obligation does not mention are unconstrained in its model
+        x = unjson_float(x)
+        return default if (not isinstance(x, (int, float)) or math.isnan(x) or math.isinf(x) or x != int(x) or x < 0) else int(x)
+    from symx.harness import unjson_float
+    nv = iv(v["npig"], 1)
+    tpv = iv(v["tp"], nv)
+    tp2v, fpv = iv(v["tp2"], tpv), iv(v["fp"], 0)
+    g = sl.concrete({"tp": np.array([tpv, tp2v]), "fp": np.array([fpv, fpv]), "npig": nv})  # the current source text, executed by real numpy
+    rc, pr = np.asarray(g["rc"], dtype=np.float64), np.asarray(g["pr"], dtype=np.float64)
+    if k == "F1":
+        bad = rc[0] != 1.0
+        detail = f"rc = {rc[0]!r} for tp = npig = {nv}"
+        if bad and nv <= 1 << 17:  # end to end: perfect predictions through the real voc_metrics
+            E = ev.Evaluator.__new__(ev.Evaluator)
+            E.positive_pairs = [(_M(_I("g")), _M(_I("p", score=1.0)), 1.0)] * nv
+            E.false_negatives = []
+            r = E.voc_metrics()
+            detail += f"; voc_metrics on {nv} perfect predictions: mAP={r['oks_voc.mAP']!r} mAR={r['oks_voc.mAR']!r}"
+        return bool(bad), detail
+    if k == "F2":
+        return bool(not (0 <= rc[0] <= 1)), f"rc = {rc[0]!r} for tp={tpv}, npig={nv}"
+    if k == "F3":
+        return bool(rc[0] > rc[1]), f"rc(tp={tpv}) = {rc[0]!r} > rc(tp={tp2v}) = {rc[1]!r}, npig={nv}"
+    if k == "F4":
+        return bool(not (0 <= pr[0] <= 1)), f"pr = {pr[0]!r} for tp={tpv}, fp={fpv}"
+    return bool(pr[0] < 1 - 2.0 ** -50), f"pr = {pr[0]!r} for tp={tpv}, fp=0"
+
+
+
 def replay(cfg, inputs, obligation):
     import numpy as np, warnings
     warnings.simplefilter("ignore")
     from symx.harness import unjson_float
     import sleap_nn.evaluation as ev
     kind = cfg["kind"]
+    if kind == "float":
+        return _replay_float(inputs)
     E = ev.Evaluator.__new__(ev.Evaluator)
     if kind == "voc":
         n = cfg["n"]
